@@ -96,8 +96,9 @@ Skip ==
 \* d = pos after a clean stop (the runtime's own applied mark was persisted).
 RestartTo(d, mode) ==
   /\ pos' = d
+  /\ durable' = IF mode = "crash" THEN d ELSE durable   \* (a no-op in Next; binds the observed index in traces)
   /\ ev' = [a |-> "Restart", d |-> d, mode |-> mode, res |-> [err |-> FALSE]]
-  /\ UNCHANGED <<cfg, durable, hist, snaps>>
+  /\ UNCHANGED <<cfg, hist, snaps>>
 
 Snapshot ==
   /\ pos > 0
